@@ -1,14 +1,14 @@
 #!/bin/bash
-# store_seed.sh <prop id> <suffix>: copy a confirmed seeded change from /tmp/seed/<id> to /verif/seeded/<id>-<suffix>
-id=$1; suf=${2:-a}; d=/verif/seeded/$id-$suf; mkdir -p $d
-cp /tmp/seed/$id/_out/patch.diff $d/; rm -rf $d/demo; cp -r /tmp/seed/$id/_out $d/demo; rm -f $d/demo/patch.diff
-python3 - $id $d <<'PY'
+# store_seed.sh <worktree name under /tmp/seed> <property id> <suffix>: copy a confirmed seeded change to /verif/seeded/<prop>-<suffix>
+src=$1; prop=$2; suf=${3:-a}; d=/verif/seeded/$prop-$suf; mkdir -p $d
+cp /tmp/seed/$src/_out/patch.diff $d/; rm -rf $d/demo; cp -r /tmp/seed/$src/_out $d/demo; rm -f $d/demo/patch.diff
+python3 - $src $prop $d <<'PY'
 import json,sys
-id,d=sys.argv[1:]
-try: m=json.load(open('/tmp/seed/%s/_out/meta.json'%id))
-except Exception as e: m={"property":id,"summary":"(meta.json of the agent unreadable: %s)"%e}
-log=open('/tmp/seed/%s.confirm.log'%id).read()
-meta={"property":id,"summary":m.get("summary"),"needs":m.get("needs"),"files":m.get("files"),
+src,prop,d=sys.argv[1:]
+try: m=json.load(open('/tmp/seed/%s/_out/meta.json'%src))
+except Exception as e: m={"summary":"(meta.json of the agent unreadable: %s)"%e}
+log=open('/tmp/seed/%s.confirm.log'%src).read()
+meta={"property":prop,"summary":m.get("summary"),"needs":m.get("needs"),"files":m.get("files"),
  "author":"fresh sub-agent given only the property text and a scratch worktree",
  "confirmed":{"how":"/tmp/seed/confirm.sh in the scratch worktree: cargo test --workspace --no-fail-fast --offline with the patch; build with --cfg kmertools_verif; demo with the patch; demo with the patch reverted",
   "result":[l for l in log.splitlines() if l.startswith(("suite:","demo","RESULT"))]},
